@@ -5,6 +5,7 @@ package main
 import (
 	"fmt"
 	"go/types"
+	"sort"
 	"strings"
 
 	"golang.org/x/tools/go/ssa"
@@ -24,6 +25,7 @@ type Env struct {
 	bound  map[string]bool
 	inLoop *Loop
 	post   bool // translating a postcondition: parameters denote entry values
+	cur    *State // under pre(): the real current state, in which local variables are read
 }
 
 func (e *Env) child() *Env {
@@ -145,6 +147,16 @@ func (w *World) resolveType(pkg *PkgInfo, text string) types.Type {
 
 func (e *Env) mk(s string, t types.Type) Val {
 	return Val{S: s, Sort: e.w.sortOf(t), T: t}
+}
+
+// mkHeap: a value read from the (well-typed) heap carries the invariants of its type
+func (e *Env) mkHeap(s string, t types.Type) Val {
+	if !mentionsBound(s, e.bound) {
+		for _, f := range e.w.typeFacts(s, t) {
+			e.addSide(f)
+		}
+	}
+	return e.mk(s, t)
 }
 
 func boolV(s string) Val { return Val{S: s, Sort: "Bool", T: types.Typ[types.Bool]} }
@@ -419,7 +431,11 @@ func (e *Env) ident(name string) Val {
 	}
 	// local cell by source name (invariants / asserts), then parameters
 	if e.fr != nil && e.st != nil && !e.post {
-		if v, ok := e.x.localByName(e.st, e.fr, name); ok {
+		lst := e.st
+		if e.cur != nil {
+			lst = e.cur // locals live in the current state even when the heap is the entry heap
+		}
+		if v, ok := e.x.localByName(lst, e.fr, name); ok {
 			return v
 		}
 	}
@@ -454,7 +470,7 @@ func (e *Env) deref(p Val) Val {
 	if e.st == nil {
 		cfail("heap read in pure context")
 	}
-	return e.mk(e.w.heapLoad(e.st, p.S, pt.Elem()), pt.Elem())
+	return e.mkHeap(e.w.heapLoad(e.st, p.S, pt.Elem()), pt.Elem())
 }
 
 func (e *Env) field(n *CField) Val {
@@ -484,7 +500,7 @@ func (e *Env) field(n *CField) Val {
 			if st.Field(i).Name() == n.Name {
 				a := app("fld", xv.S, fmt.Sprint(si.Tags[i]))
 				ft := st.Field(i).Type()
-				return e.mk(e.w.heapLoad(e.st, a, ft), ft)
+				return e.mkHeap(e.w.heapLoad(e.st, a, ft), ft)
 			}
 		}
 		cfail("no field %s", n.Name)
@@ -564,7 +580,7 @@ func (e *Env) index(n *CIndex) Val {
 		if e.st == nil {
 			cfail("heap read in pure context")
 		}
-		return e.mk(e.w.heapLoad(e.st, app("selem", xv.S, i), st.Elem()), st.Elem())
+		return e.mkHeap(e.w.heapLoad(e.st, app("selem", xv.S, i), st.Elem()), st.Elem())
 	case "Addr":
 		if mt, ok := xv.T.Underlying().(*types.Map); ok {
 			k := e.tr(n.I)
@@ -600,6 +616,19 @@ func (e *Env) call(n *CCall) Val {
 		}
 		c := e.withState(e.old)
 		c.post = true
+		return c.tr(n.Args[0])
+	case "pre":
+		// pre(e): e with the heap as at function entry, locals and parameters as now
+		if e.old == nil || e.st == nil {
+			cfail("pre() outside a function contract")
+		}
+		mixed := *e.st
+		mixed.heap = e.old.heap
+		c := *e
+		c.st = &mixed
+		if c.cur == nil {
+			c.cur = e.st
+		}
 		return c.tr(n.Args[0])
 	case "entry", "at":
 		// entry(e): value at entry to the current loop; at(L2.entry, e) / at(L1.head, e)
@@ -678,7 +707,39 @@ func (e *Env) call(n *CCall) Val {
 			args = append(args, v.S)
 		}
 		rt := e.w.resolveType(e.w.specPkg[n.Fun], sf.Result)
+		if sf.Heap {
+			if e.st == nil {
+				cfail("heap-reading spec function %s used in a pure context", n.Fun)
+			}
+			var hargs []string
+			for _, c := range e.w.heapComps(sf) {
+				hargs = append(hargs, e.w.compByName(e.st, c))
+			}
+			args = append(hargs, args...)
+		}
 		return e.mk(app("spec_"+n.Fun, args...), rt)
+	}
+	if n.Fun == "mk" && len(n.Args) >= 1 {
+		// mk(Type, field values...): struct value
+		tn := typeNameOf(n.Args[0])
+		t := e.w.resolveType(e.pkg, tn)
+		st, ok := t.Underlying().(*types.Struct)
+		if !ok || st.NumFields() != len(n.Args)-1 {
+			cfail("mk(%s, ...): not a struct type with %d fields", tn, len(n.Args)-1)
+		}
+		si := e.w.structInfo(t)
+		var fs []string
+		for i, a := range n.Args[1:] {
+			v := e.tr(a)
+			if v.Sort == "Nil" {
+				v = nilOf(Val{Sort: si.Fields[i]})
+			}
+			if v.Sort != si.Fields[i] {
+				cfail("mk(%s): field %d has sort %s, want %s", tn, i, v.Sort, si.Fields[i])
+			}
+			fs = append(fs, v.S)
+		}
+		return e.mk(e.w.mkStruct(si, fs), t)
 	}
 	cfail("unknown function %q in contract", n.Fun)
 	return Val{}
@@ -716,7 +777,7 @@ func (w *World) expandGoal(e CExpr, depth int) []CExpr {
 			return out
 		}
 	case *CCall:
-		if sf, ok := w.specs[n.Fun]; ok && depth < 3 && sf.Body != nil && sf.Result == "bool" && !mentionsCall(sf.Body, sf.Name) && len(n.Args) == len(sf.Params) {
+		if sf, ok := w.specs[n.Fun]; ok && depth < 3 && sf.Body != nil && !sf.Heap && sf.Result == "bool" && !mentionsCall(sf.Body, sf.Name) && len(n.Args) == len(sf.Params) {
 			parts := w.expandGoal(sf.Body, depth+1)
 			if len(parts) == 1 {
 				return []CExpr{e}
@@ -743,4 +804,55 @@ func (w *World) expandGoal(e CExpr, depth int) []CExpr {
 		return out
 	}
 	return []CExpr{e}
+}
+
+func typeNameOf(e CExpr) string {
+	switch n := e.(type) {
+	case *CIdent:
+		return n.Name
+	case *CField:
+		return typeNameOf(n.X) + "." + n.Name
+	}
+	cfail("type name expected")
+	return ""
+}
+
+// heapComps: the heap components a heap-reading spec function (transitively) reads, discovered by translating its
+// body against a formal heap.
+func (w *World) heapComps(sf *SpecFunc) []string {
+	if cs, ok := w.specHeap[sf.Name]; ok {
+		return cs
+	}
+	if w.specHeapBusy[sf.Name] {
+		return nil // recursive call during discovery
+	}
+	w.specHeapBusy[sf.Name] = true
+	defer delete(w.specHeapBusy, sf.Name)
+	st := &State{heap: map[string]string{}, snaps: map[string]*State{}, formal: true}
+	pkg := w.specPkg[sf.Name]
+	env := &Env{w: w, pkg: pkg, vars: map[string]Val{}, bound: map[string]bool{}, st: st, x: w.pureExec(pkg)}
+	for _, p := range sf.Params {
+		t := w.resolveType(pkg, p.Type)
+		name := "a_" + p.Name
+		env.vars[p.Name] = Val{S: name, Sort: w.sortOf(t), T: t}
+		env.bound[name] = true
+	}
+	if sf.Body != nil {
+		env.tr(sf.Body)
+	}
+	if sf.Decreases != nil {
+		env.tr(sf.Decreases)
+	}
+	var cs []string
+	for c := range st.heap {
+		cs = append(cs, c)
+	}
+	sort.Strings(cs)
+	w.specHeap[sf.Name] = cs
+	return cs
+}
+
+// pureExec: an executor shell for contexts without a function under verification (map component access etc.)
+func (w *World) pureExec(pkg *PkgInfo) *Exec {
+	return &Exec{w: w, g: newGen(w), pkg: pkg, used: map[string]bool{}, inlined: map[string]bool{}, havocked: map[string]bool{}, localM: map[*ssa.Alloc]bool{}, plans: map[*ssa.Function]*lazyPlan{}}
 }
